@@ -250,9 +250,68 @@ def rule_assert_false(chk, prog):
     r.count(sum(len(v) for v in seen.values()))
 
 
+def rule_dtor_drain(chk, prog):
+    """Destructors that detach everything still attached: `while (!c.empty()) { ... *c.begin() ... }`."""
+    from ..astq import norm
+    table = load_table("drain_loops.json")["entries"]
+    r = chk.rule("DTOR-DRAIN", "every destructor listed in tables/drain_loops.json still drains its member container with a loop "
+                 "`while (!c.empty())` (detaching / deleting the first element each time); in no destructor is such a drain reduced to "
+                 "`if (!c.empty())` (which would leave all but one element attached to a dead object); a destructor that removes itself "
+                 "from the router's queued actions does so on every path", floor=3)
+    seen = {}
+    for f in prog.all_functions():
+        if f.kind != "dtor":
+            continue
+        for n in f.nodes():
+            if n.get("k") in ("WhileStmt", "IfStmt") and n.get("cond") is not None:
+                c = norm(n["cond"])
+                m = None
+                if c.startswith("!") and c.endswith(".empty()"):
+                    m = c[1:-len(".empty()")]
+                elif c.endswith(".empty() == false)") and c.startswith("("):
+                    m = c[1:-len(".empty() == false)")]
+                if m is None:
+                    continue
+                body = n.get("body") if n["k"] == "WhileStmt" else n.get("then")
+                uses_begin = body is not None and any((x.get("cname", "").endswith("::begin") or x.get("cname", "").endswith("::front"))
+                                                      and norm(call_object(x)) == m for x in walk(body) if x.get("k") == "CXXMemberCallExpr")
+                if not uses_begin:
+                    continue
+                key = "%s: %s" % (f.q, m)
+                seen[key] = (n["k"], f, n)
+    for key, (kind, f, n) in sorted(seen.items()):
+        r.count()
+        if kind == "IfStmt":
+            r.bad(key, f.loc(n), "the destructor handles only the first element of `%s` (if instead of while): the remaining elements keep "
+                  "pointers to the destroyed object" % key.split(": ")[1])
+        else:
+            r.ok(key, f.loc(n))
+    for key, why in sorted(table.items()):
+        if key not in seen:
+            q = key.split(": ")[0]
+            fs = prog.fns(q)
+            r.bad(key, fs[0].where() if fs else "?", "the destructor no longer drains `%s` (%s)" % (key.split(": ")[1], why))
+    # self-removal from the queued actions must be unconditional
+    for f in prog.all_functions():
+        if f.kind != "dtor":
+            continue
+        cs = [n for n in calls(f) if n.get("cname") == "Avoid::Router::removeObjectFromQueuedActions"]
+        if not cs:
+            continue
+        g = CFG(f)
+        r.count()
+        w = g.exit_reachable_avoiding([c["id"] for c in cs])
+        if w is not None:
+            r.bad("%s: removeObjectFromQueuedActions" % f.q, f.loc(cs[0]), "the destructor can finish without removing the object from the router's "
+                  "queued actions (%s): a queued action keeps a dangling pointer" % g.describe(w))
+        else:
+            r.ok("%s: removeObjectFromQueuedActions" % f.q, f.loc(cs[0]))
+
+
 def run(chk):
     prog = chk.load()
     cg = CallGraph(prog)
+    rule_dtor_drain(chk, prog)
     rule_init(chk, prog)
     rule_own_dtor(chk, prog, cg)
     rule_del_guard(chk, prog)
